@@ -384,7 +384,20 @@ impl Property for C07 {
         // does rustfmt's line bookkeeping for skipped code break down somewhere in this file?
         // (known finding: first line in input coordinates, last line in output coordinates;
         // relative to the sub-buffer inside expression-level blocks)
-        let bookkeeping_off = rec_out.iter().enumerate().any(|(i, n)| n.nested || shifted(i));
+        let any_nested = rec_out.iter().any(|n| n.nested) || !paired;
+        // the range the known defect records for the i-th skipped item/statement: first line from
+        // the input (statements: the line after the attributes; items: the attributes' line),
+        // last line from the output
+        let proper_first = |t: &str, n: &SkipNode| -> usize {
+            let main = n.attrs_hi + t[n.attrs_hi..n.hi].len() - t[n.attrs_hi..n.hi].trim_start().len();
+            if n.attrs_hi > n.lo { line_of(t, main).min(line_of(t, n.attrs_hi.saturating_sub(1)) + 1) } else { line_of(t, main) }
+        };
+        let defect_range = |i: usize| -> (usize, usize) {
+            let n_in = rec_in[i];
+            let lo = if n_in.kind == "stmt" { proper_first(&src_lf, n_in) } else { line_of(&src_lf, n_in.lo) };
+            let n_out = rec_out[i];
+            (lo, line_of(&text, n_out.hi.saturating_sub(1).max(n_out.lo)))
+        };
         // the lines of the node proper; the lines holding only its outer attributes are formatted code
         let node_lines: Vec<(usize, usize, &SkipNode)> = out_nodes
             .iter()
@@ -481,7 +494,16 @@ impl Property for C07 {
                     // only skipped items and statements are recorded as skipped; the lines of a
                     // skipped expression, field, variant, parameter or match arm are reported
                     None => Some("skipped-subnode-reported"),
-                    Some(i) if n.nested || shifted(i) => Some("skipped-range-misplaced"),
+                    // the node sits in a buffer of its own, or its line number changed and the
+                    // recorded range is exactly the one the known defect produces and misses `l`
+                    Some(_) if n.nested || !paired => Some("skipped-range-misplaced"),
+                    Some(i) if shifted(i) && {
+                        let r = defect_range(i);
+                        recorded.contains(&r) && !(r.0 <= l && l <= r.1)
+                    } =>
+                    {
+                        Some("skipped-range-misplaced")
+                    }
                     Some(_) => None,
                 };
                 match class {
@@ -533,10 +555,9 @@ impl Property for C07 {
                 // line numbers of a macro call rustfmt gave up on, or a range that starts at the
                 // input line of a skipped node whose line number changed
                 let misplaced = recorded.iter().filter(|(a, b)| *a <= l && l <= *b).any(|r| {
-                    macs_in.iter().any(|m| m == r)
-                        || rec_in.iter().enumerate().any(|(i, n)| (n.nested || shifted(i)) && line_of(&src_lf, n.lo) <= r.0 && r.0 <= line_of(&src_lf, n.hi.saturating_sub(1).max(n.lo)))
+                    macs_in.iter().any(|m| m == r) || (paired && (0..rec_in.len()).any(|i| !rec_out[i].nested && shifted(i) && defect_range(i) == *r))
                 });
-                if bookkeeping_off || misplaced {
+                if any_nested || misplaced {
                     if !judge_known {
                         known(&mut o, "skipped-range-misplaced");
                         continue;
